@@ -344,3 +344,32 @@ def _where(ex, st, node):
             return z3.If(ca[j], ex.to_int(x), ex.to_int(y))
         return z3.If(ca[j], x.z, y.z)
     return ex.new_seq(st, t, n, val, "nd", "where")
+
+
+@libfn("np.flip", "numpy.flip", stmt="np.flip(x): the reversal of a 1-D array")
+def _flip(ex, st, node):
+    x = ex.ev(st, node.args[0])
+    n = ex.seq_len(x)
+    xa = x.t.arr(x.z)
+    return ex.new_seq(st, x.t.elem, n, lambda j: xa[n - 1 - j], "nd", "flip")
+
+
+@libfn("np.array_equal", "numpy.array_equal", stmt="np.array_equal(a, b): same length and element-wise equal")
+def _array_equal(ex, st, node):
+    a, b = ex.ev(st, node.args[0]), ex.ev(st, node.args[1])
+    return SV(BOOL, ex.seq_eq(a, b))
+
+
+@libfn("np.random.permutation", "numpy.random.permutation",
+       stmt="np.random.permutation(arange(n)): a permutation of range(n) drawn from the GLOBAL numpy RNG")
+def _np_random_permutation(ex, st, node):
+    x = ex.ev(st, node.args[0])
+    n = ex.seq_len(x)
+    if not st.spec:
+        i = ex.bvar("i")
+        ex.oblige(st, "safety.permutation_of_arange",
+                  z3.ForAll([i], z3.Implies(z3.And(0 <= i, i < n), x.t.arr(x.z)[i] == i), patterns=[x.t.arr(x.z)[i]]),
+                  "safety", node, "argument is arange(n) (only this form is modelled)")
+    r = ex.fresh("rperm", TSeq(INT, "nd"))
+    ex.assume(st, is_perm(ex, r, n))
+    return r
